@@ -136,6 +136,14 @@ def run(res, ctx):
             if got != exp:
                 res.violation("hard-coded secret / temp path / bind-all findings differ from the documented rule",
                               {"program": src, "expected": sorted(exp), "got": sorted(got), "meta": meta})
+            # the literal is quoted in the message, in every position
+            if meta["pos"] in ("assign-name", "assign-attr", "compare-name", "compare-attr", "subscript", "kwarg", "default", "default-posonly"):
+                for (tid, ln, text) in real[i]["texts"]:
+                    if tid in ("B105", "B106", "B107"):
+                        res.count("quoted-literal-checked:" + meta["pos"])
+                        if ("'" + meta["lit"] + "'") not in text:
+                            res.violation("the hard-coded literal is not quoted in the message",
+                                          {"program": src, "test": tid, "message": text, "literal": meta["lit"], "meta": meta})
         off = len(progs)
         for j, (src, exp, meta) in enumerate(chm):
             i = off + j
